@@ -215,6 +215,22 @@ def run(argv):
         jobs.append((f"inner-edit-{a}-after-own-render",
                      {"steps": [alone[0], {"op": "render", "id": "A", "backend": BACKENDS[0], "tag": [a, "dense"]}, {"op": "query", "id": "A"}] + alone[1:]},
                      rng.choice(seeds)))
+    # (c4) a species spelled two ways (the electron: `E` in KROME files, `e-` elsewhere); the reaction that brought the first spelling
+    #      is removed again: what remains is described by the remaining lines alone
+    two = [native(1, ["H+", "E"], ["H"]), native(2, ["H-", "H"], ["H2", "e-"]), native(3, ["H2", "e-"], ["H", "H", "e-"]),
+           native(4, ["H", "e-"], ["H-"])]
+    for first in (0, 3):
+        lines = two if first == 0 else [two[3], two[1], two[2], native(1, ["H+", "E"], ["H"])]
+        bare = {"elements": DEFAULT_ELEMENTS, "pseudo": DEFAULT_PSEUDO, "kwargs": {}}
+        hist = dict(bare, files=[["\n".join(lines) + "\n", "naunet"]])
+        rest = dict(bare, files=[["\n".join(l for k, l in enumerate(lines) if k != first) + "\n", "naunet"]])
+        tagx = [f"two-spellings-minus-{first}", "dense"]
+        jobs.append((f"spelling-removed-{first}-direct", {"steps": [{"op": "build", "id": "A", "desc": rest},
+                                                                    {"op": "render", "id": "A", "backend": BACKENDS[0], "tag": tagx}]}, 0))
+        jobs.append((f"spelling-removed-{first}-history", {"steps": [{"op": "build", "id": "A", "desc": hist}, {"op": "query", "id": "A"},
+                                                                     {"op": "remove", "id": "A", "index": first},
+                                                                     {"op": "render", "id": "A", "backend": BACKENDS[0], "tag": tagx}]},
+                     rng.choice(seeds)))
     # (d) binding energies of another project must not matter to a network without ice species... they are global by
     #     design through the API; through the CLI each project states its own table: render P1 (with a binding-energy
     #     table), then P2 in the same process; P2 alone is the baseline.
